@@ -542,3 +542,225 @@ Proof.
   intros Hm Hag. unfold file_cfg. destruct (f_mocks f) as [|m0 rest] eqn:E; [destruct Hm|].
   apply Hag; [now left | exact Hm].
 Qed.
+
+(* ------------------------------------------------------------------ scalars, for every configured package *)
+(* The recursive step can add template-data / replace-type entries of the recursive package to a
+   configured sub-package, but never changes a pointer parameter: below a total root every
+   config is total after the first loop, and merging into a total config leaves its pointers. *)
+Definition ptr_eq (a b : cfg) : Prop := forall p, c_ptr a p = c_ptr b p.
+Definition irel (a b : icfg) : Prop :=
+  ptr_eq (ic_config a) (ic_config b) /\ Forall2 ptr_eq (ic_configs a) (ic_configs b).
+Definition prel (a b : pcfg) : Prop :=
+  ptr_eq (pc_config a) (pc_config b)
+  /\ Forall2 (fun x y => fst x = fst y /\ irel (snd x) (snd y)) (pc_ifaces a) (pc_ifaces b).
+
+Lemma ptr_eq_refl a : ptr_eq a a.
+Proof. intros p. reflexivity. Qed.
+Lemma ptr_eq_trans a b c : ptr_eq a b -> ptr_eq b c -> ptr_eq a c.
+Proof. intros H1 H2 p. rewrite H1. apply H2. Qed.
+
+Lemma Forall2_refl {A} (R : A -> A -> Prop) l : (forall x, R x x) -> Forall2 R l l.
+Proof. intros H. induction l; constructor; auto. Qed.
+
+Lemma Forall2_trans {A} (R : A -> A -> Prop) :
+  (forall x y z, R x y -> R y z -> R x z) -> forall l1 l2 l3, Forall2 R l1 l2 -> Forall2 R l2 l3 -> Forall2 R l1 l3.
+Proof.
+  intros HT l1 l2 l3 H12. revert l3. induction H12; intros l3 H23; inversion H23; subst; constructor; eauto.
+Qed.
+
+Lemma irel_refl a : irel a a.
+Proof. split; [apply ptr_eq_refl | apply Forall2_refl, ptr_eq_refl]. Qed.
+Lemma irel_trans a b c : irel a b -> irel b c -> irel a c.
+Proof.
+  intros [H1 H2] [G1 G2]. split; [eapply ptr_eq_trans; eassumption|].
+  eapply Forall2_trans; [apply ptr_eq_trans | eassumption | eassumption].
+Qed.
+Lemma prel_refl a : prel a a.
+Proof. split; [apply ptr_eq_refl|]. apply Forall2_refl. intros x. split; [reflexivity | apply irel_refl]. Qed.
+Lemma prel_trans a b c : prel a b -> prel b c -> prel a c.
+Proof.
+  intros [H1 H2] [G1 G2]. split; [eapply ptr_eq_trans; eassumption|].
+  eapply Forall2_trans; [|eassumption|eassumption].
+  intros x y z [E1 R1] [E2 R2]. split; [congruence | eapply irel_trans; eassumption].
+Qed.
+
+Lemma ptr_eq_merge par par' ch ch' :
+  ptr_eq par par' -> ptr_eq ch ch' -> ptr_eq (merge_cfg par ch) (merge_cfg par' ch').
+Proof. intros H1 H2 p. simpl. rewrite H1, H2. reflexivity. Qed.
+
+Lemma ptr_eq_merge_total par ch : total ch = true -> ptr_eq (merge_cfg par ch) ch.
+Proof.
+  intros H p. simpl. apply total_spec with (p := p) in H. destruct (c_ptr ch p); [reflexivity | congruence].
+Qed.
+
+Lemma init_iface_rel c c' i i' : ptr_eq c c' -> irel i i' -> irel (init_iface c i) (init_iface c' i').
+Proof.
+  intros Hc [H1 H2]. unfold init_iface. split; simpl.
+  - apply ptr_eq_merge; assumption.
+  - induction H2; simpl; constructor; [|assumption].
+    apply ptr_eq_merge; [apply ptr_eq_merge; assumption | assumption].
+Qed.
+
+Lemma init_pkg_rel r a b : prel a b -> prel (init_pkg r a) (init_pkg r b).
+Proof.
+  intros [H1 H2]. unfold init_pkg. split; simpl.
+  - apply ptr_eq_merge; [apply ptr_eq_refl | exact H1].
+  - induction H2 as [|x y l l' [E R] _ IH]; simpl; constructor; [|exact IH].
+    split; [exact E|]. apply init_iface_rel; [|exact R]. apply ptr_eq_merge; [apply ptr_eq_refl | exact H1].
+Qed.
+
+(* the fold over the recursive packages keeps every total entry, up to [prel] *)
+Definition keeps (base acc : list (str * pcfg)) : Prop :=
+  forall k a, get k base = Some a -> total (pc_config a) = true ->
+              exists b, get k acc = Some b /\ prel a b.
+
+Lemma rec_step_keeps disc base acc parent : keeps base acc -> keeps base (rec_step disc acc parent).
+Proof.
+  intros HK. unfold rec_step. destruct (get parent acc) as [pp|]; [|exact HK].
+  generalize (match get parent disc with Some l => l | None => [] end). intros subs.
+  revert acc HK. induction subs as [|s subs IH]; intros acc HK; [exact HK|].
+  simpl. apply IH. intros k a Ha Ht. destruct (HK k a Ha Ht) as (b & Hb & Hr).
+  destruct (str_dec k s) as [->|Hne].
+  - rewrite get_set_same. eexists. split; [reflexivity|]. rewrite Hb. simpl.
+    destruct Hr as [R1 R2]. split; simpl; [|exact R2].
+    intros p. simpl. rewrite <- (R1 p).
+    apply total_spec with (p := p) in Ht. destruct (c_ptr (pc_config a) p); [reflexivity | congruence].
+  - rewrite get_set_other by exact Hne. eauto.
+Qed.
+
+Lemma rec_fold_keeps disc base recs : forall acc, keeps base acc -> keeps base (fold_left (rec_step disc) recs acc).
+Proof.
+  induction recs as [|r recs IH]; intros acc HK; [exact HK|]. simpl. apply IH. apply rec_step_keeps. exact HK.
+Qed.
+
+Lemma keeps_refl l : keeps l l.
+Proof. intros k a Ha _. exists a. split; [exact Ha | apply prel_refl]. Qed.
+
+(* one Initialize with discovery vs. without, on related trees *)
+Lemma init_pure_rel disc root pk pk' k a :
+  total root = true ->
+  (forall x, get k pk = Some x -> exists y, get k pk' = Some y /\ prel x y) ->
+  get k (t_pkgs (init_pure [] {| t_root := root; t_pkgs := pk |})) = Some a ->
+  exists b, get k (t_pkgs (init_pure disc {| t_root := root; t_pkgs := pk' |})) = Some b /\ prel a b.
+Proof.
+  intros Ht Hrel Ha. unfold init_pure in *. simpl in *.
+  assert (forall recs l, fold_left (rec_step []) recs l = l) as Hid.
+  { induction recs as [|r recs IH]; intros l; [reflexivity|]. simpl. rewrite <- (IH l) at 2. f_equal.
+    unfold rec_step. destruct (get r l); reflexivity. }
+  rewrite Hid in Ha. rewrite (get_map (init_pkg root)) in Ha.
+  destruct (get k pk) as [x|] eqn:Ex; [|discriminate]. simpl in Ha. injection Ha as <-.
+  destruct (Hrel x eq_refl) as (y & Ey & Rxy).
+  assert (keeps (map (fun e => (fst e, init_pkg root (snd e))) pk')
+                (fold_left (rec_step disc)
+                   (map fst (filter (fun e => is_true (c_ptr (pc_config (snd e)) PRecursive))
+                                    (map (fun e => (fst e, init_pkg root (snd e))) pk')))
+                   (map (fun e => (fst e, init_pkg root (snd e))) pk'))) as HK
+    by (apply rec_fold_keeps, keeps_refl).
+  destruct (HK k (init_pkg root y)) as (b & Hb & Rb).
+  - rewrite (get_map (init_pkg root)), Ey. reflexivity.
+  - simpl. apply total_merge_l. exact Ht.
+  - exists b. split; [exact Hb|]. eapply prel_trans; [apply init_pkg_rel; exact Rxy | exact Rb].
+Qed.
+
+Lemma get_rel_ifaces name l l' :
+  Forall2 (fun x y => fst x = fst y /\ irel (snd x) (snd y)) l l' ->
+  match get name l, get name l' with
+  | Some i, Some i' => irel i i'
+  | None, None => True
+  | _, _ => False
+  end.
+Proof.
+  induction 1 as [|[n i] [n' i'] l l' [E R] _ IH]; simpl; [exact I|].
+  simpl in E. subst n'. destruct (seqb name n); [exact R | exact IH].
+Qed.
+
+Lemma nth_error_rel {A} (R : A -> A -> Prop) l l' n :
+  Forall2 R l l' ->
+  match nth_error l n, nth_error l' n with
+  | Some a, Some b => R a b
+  | None, None => True
+  | _, _ => False
+  end.
+Proof.
+  intros H. revert n. induction H as [|x y l l' Hxy _ IH]; intros [|n]; simpl; auto. apply IH.
+Qed.
+
+Lemma iface_cfgs_rel x y name : prel x y -> Forall2 ptr_eq (iface_cfgs x name) (iface_cfgs y name).
+Proof.
+  intros [R1 R2]. unfold iface_cfgs.
+  pose proof (get_rel_ifaces name _ _ R2) as Hi.
+  destruct (get name (pc_ifaces x)) as [i|], (get name (pc_ifaces y)) as [i'|]; try contradiction.
+  - destruct Hi as [G1 G2]. inversion G2; subst; [constructor; [exact G1 | constructor]|].
+    constructor; assumption.
+  - constructor; [exact R1 | constructor].
+Qed.
+
+Lemma mock_cfg_rel r r' pk pk' m x y :
+  get (m_pkg m) pk = Some x -> get (m_pkg m) pk' = Some y -> prel x y ->
+  match mock_cfg {| t_root := r; t_pkgs := pk |} m, mock_cfg {| t_root := r'; t_pkgs := pk' |} m with
+  | Some c, Some c' => ptr_eq c c'
+  | None, None => True
+  | _, _ => False
+  end.
+Proof.
+  intros Hx Hy R. unfold mock_cfg. simpl. rewrite Hx, Hy.
+  apply nth_error_rel. apply iface_cfgs_rel. exact R.
+Qed.
+
+(* C08_scalar for every configured package, recursive parents or not *)
+Theorem scalar_first_set_all disc t m c p :
+  total (t_root t) = true ->
+  has_key (m_pkg m) (t_pkgs t) = true ->
+  mock_cfg (init_pure disc (init_pure disc t)) m = Some c ->
+  c_ptr c p = first_some (map (fun x => c_ptr x p) (written_chain t m)).
+Proof.
+  intros Ht Hk Hc.
+  assert (untouched [] (m_pkg m)) as Hu by (intros parent subs H; discriminate).
+  destruct t as [root pk]. simpl in Ht.
+  set (u2 := init_pure [] (init_pure [] {| t_root := root; t_pkgs := pk |})).
+  set (d2 := init_pure disc (init_pure disc {| t_root := root; t_pkgs := pk |})) in *.
+  (* pass 1 relation *)
+  assert (forall k a, get k (t_pkgs (init_pure [] {| t_root := root; t_pkgs := pk |})) = Some a ->
+            exists b, get k (t_pkgs (init_pure disc {| t_root := root; t_pkgs := pk |})) = Some b /\ prel a b) as H1.
+  { intros k a Ha. eapply init_pure_rel; [exact Ht | | exact Ha].
+    intros x Hx. exists x. split; [exact Hx | apply prel_refl]. }
+  (* pass 2 relation *)
+  assert (forall a, get (m_pkg m) (t_pkgs u2) = Some a ->
+            exists b, get (m_pkg m) (t_pkgs d2) = Some b /\ prel a b) as H2.
+  { intros a Ha. unfold u2 in Ha. unfold d2.
+    change (init_pure [] {| t_root := root; t_pkgs := pk |})
+      with {| t_root := root; t_pkgs := t_pkgs (init_pure [] {| t_root := root; t_pkgs := pk |}) |} in Ha.
+    change (init_pure disc {| t_root := root; t_pkgs := pk |})
+      with {| t_root := root; t_pkgs := t_pkgs (init_pure disc {| t_root := root; t_pkgs := pk |}) |}.
+    eapply init_pure_rel; [exact Ht | | exact Ha]. intros x Hx. apply H1. exact Hx. }
+  unfold has_key in Hk. simpl in Hk.
+  destruct (get (m_pkg m) pk) as [pc|] eqn:Epk; [|discriminate].
+  assert (exists a, get (m_pkg m) (t_pkgs u2) = Some a) as (a & Ea).
+  { unfold u2. rewrite !init_pure_untouched by exact Hu. simpl. rewrite Epk. simpl. eauto. }
+  destruct (H2 a Ea) as (b & Eb & Rab).
+  pose proof (mock_cfg_rel (t_root u2) (t_root d2) (t_pkgs u2) (t_pkgs d2) m a b Ea Eb Rab) as Hm.
+  assert (mock_cfg {| t_root := t_root d2; t_pkgs := t_pkgs d2 |} m = Some c) as Hc' by (destruct d2; exact Hc).
+  rewrite Hc' in Hm.
+  destruct (mock_cfg {| t_root := t_root u2; t_pkgs := t_pkgs u2 |} m) as [c0|] eqn:Hc0; [|contradiction].
+  rewrite <- (Hm p).
+  assert (mock_cfg u2 m = Some c0) as Hc0' by (destruct u2; exact Hc0).
+  exact (scalar_first_set [] {| t_root := root; t_pkgs := pk |} m c0 Hu Hc0' p).
+Qed.
+
+(* the guard of the chain theorems as a boolean *)
+Definition untouchedb (disc : list (str * list str)) (pkg : str) : bool :=
+  forallb (fun e => negb (smem pkg (snd e))) disc.
+
+Lemma get_in {A} k (l : list (str * A)) v : get k l = Some v -> In (k, v) l.
+Proof.
+  induction l as [|[k' v'] l IH]; simpl; [discriminate|].
+  destruct (seqb k k') eqn:E; [|intros H; right; apply IH; exact H].
+  apply seqb_eq in E. subst. intros H; injection H as ->. now left.
+Qed.
+
+Lemma untouchedb_spec disc pkg : untouchedb disc pkg = true -> untouched disc pkg.
+Proof.
+  unfold untouchedb. rewrite forallb_forall. intros H parent subs Hg Hin.
+  specialize (H _ (get_in _ _ _ Hg)). simpl in H.
+  apply smem_In in Hin. rewrite Hin in H. discriminate.
+Qed.
